@@ -39,7 +39,7 @@ let spec_line (f : M.frame) =
     (outs sta_str (M.s_parse_reassoc_req f)) (outs reason_str (M.s_parse_reason f (z_of_int 12))) (outs reason_str (M.s_parse_reason f (z_of_int 10)))
 
 let op_mgmt t =
-  let rt = t.(1) = "1" in
+  let rt = t.(1) <> "0" in
   let a = ints_of_hex t.(2) in
   match M.get_wifi_frame (rd_strict_arr a) (z_of_int (Array.length a)) rt with
   | M.Done (M.Err _) -> "mgmt cls=err ## mgmt cls=err"
